@@ -13,3 +13,14 @@ def beNat (bs : Bytes) : Nat := bs.foldl (fun acc b => acc * 256 + b) 0
 def packBE32 (n : Nat) : Bytes := [n / 16777216 % 256, n / 65536 % 256, n / 256 % 256, n % 256]
 
 end Yow.Py
+
+namespace Yow.Py
+
+/-- what a translated pure function returns: it raised, it fell off its end (Python's `None`), or it returned an integer -/
+inductive Res
+  | raised
+  | none
+  | ret (v : Int)
+deriving Repr, DecidableEq
+
+end Yow.Py
